@@ -123,6 +123,8 @@ pub struct Profile {
     pub burst: (u64, u64),
     pub burst_pm: u64,
     pub trigger_pm: u64,
+    /// per-mille of clients whose client id contains a topic metacharacter (must be refused)
+    pub bad_id_pm: u64,
 }
 
 #[derive(Clone, Debug)]
@@ -196,6 +198,7 @@ pub fn base_profile(name: &'static str) -> Profile {
         burst: (100, 260),
         burst_pm: 100,
         trigger_pm: 150,
+        bad_id_pm: 0,
     }
 }
 
@@ -285,6 +288,8 @@ impl History {
             let guarded = profile.guarded_pair && i < 2;
             let name = if guarded {
                 ["P", "S"][i].to_owned()
+            } else if rng.below(1000) < profile.bad_id_pm {
+                format!("{}{i}", rng.pick(&["a/b", "x+", "$y", "#", "+", "q#r"]))
             } else {
                 format!("c{i}")
             };
